@@ -139,6 +139,8 @@ class set_impl {
   void clear() {
     m_comm.barrier();
     m_local_set.clear();
+    // No rank may issue new operations before every rank has emptied its set.
+    m_comm.cf_barrier();
   }
 
   size_type size() {
